@@ -38,8 +38,18 @@ theorem block_has_rule (extra : Str → Str) (l : Str) : contains (langRule l) (
   rw [e]
   exact contains_of_isPrefix_tail _ _ _ (contains_self_append _ _)
 
-theorem declareLangs_keeps (test extra) (m : Str) : ∀ (ls : List Str) (sheet : Str), contains m sheet = true →
-    contains m (declareLangs test extra sheet ls) = true := by
+theorem block_has_head (extra : Str → Str) (l : Str) : contains (blockHead l) (langBlock extra l) = true := by
+  unfold langBlock blockHead
+  have e : "\n    .".toList ++ l ++ " {\n    ".toList ++ declLine "lang".toList l ++ extra l ++ "}\n".toList
+      = "\n    ".toList ++ (('.' :: l ++ " {".toList) ++ ("\n    ".toList ++ declLine "lang".toList l ++ extra l ++ "}\n".toList)) := by
+    have h1 : "\n    .".toList = "\n    ".toList ++ ['.'] := by decide
+    have h2 : " {\n    ".toList = " {".toList ++ "\n    ".toList := by decide
+    rw [h1, h2]; simp only [List.append_assoc, List.cons_append, List.nil_append]
+  rw [e]
+  exact contains_of_isPrefix_tail _ _ _ (contains_self_append _ _)
+
+theorem declareLangs_keeps (test extra labels) (m : Str) : ∀ (ls : List Str) (sheet : Str), contains m sheet = true →
+    contains m (declareLangs test extra labels sheet ls) = true := by
   intro ls
   induction ls with
   | nil => intro s h; exact h
@@ -50,8 +60,8 @@ theorem declareLangs_keeps (test extra) (m : Str) : ∀ (ls : List Str) (sheet :
     · exact ih s h
     · exact ih _ (contains_append_right m s _ h)
 
-theorem declares_all (extra : Str → Str) : ∀ (ls : List Str) (sheet : Str), ∀ l ∈ ls,
-    contains (langRule l) (declareLangs langRule extra sheet ls) = true := by
+theorem declares_all (extra : Str → Str) (labels : Str → Bool) : ∀ (ls : List Str) (sheet : Str), ∀ l ∈ ls,
+    contains (langRule l) (declareLangs langRule extra labels sheet ls) = true := by
   intro ls
   induction ls with
   | nil => intro _ l hl; simp at hl
@@ -59,10 +69,31 @@ theorem declares_all (extra : Str → Str) : ∀ (ls : List Str) (sheet : Str), 
     intro sheet l hl
     unfold declareLangs
     rcases List.mem_cons.mp hl with rfl | hl
-    · by_cases hc : contains (langRule l) sheet = true
-      · rw [if_pos hc]; exact declareLangs_keeps _ _ _ ls sheet hc
-      · rw [if_neg hc]
-        exact declareLangs_keeps _ _ _ ls _ (contains_of_isPrefix_tail _ _ _ (block_has_rule extra l))
+    · split
+      · rename_i hc
+        have hc' : contains (langRule l) sheet = true := by
+          simp only [Bool.and_eq_true] at hc; exact hc.1
+        exact declareLangs_keeps _ _ _ _ ls sheet hc'
+      · exact declareLangs_keeps _ _ _ _ ls _ (contains_of_isPrefix_tail _ _ _ (block_has_rule extra l))
     · exact ih _ l hl
+
+/-- a language that labels paragraphs with its own code gets a class of that name -/
+theorem labelled_has_class (extra : Str → Str) (labels : Str → Bool) : ∀ (ls : List Str) (sheet : Str), ∀ l ∈ ls, labels l = true →
+    contains (blockHead l) (declareLangs langRule extra labels sheet ls) = true := by
+  intro ls
+  induction ls with
+  | nil => intro _ l hl; simp at hl
+  | cons x ls ih =>
+    intro sheet l hl hlab
+    unfold declareLangs
+    rcases List.mem_cons.mp hl with rfl | hl
+    · split
+      · rename_i hc
+        simp only [Bool.and_eq_true, Bool.not_eq_true', Bool.and_eq_false_iff, Bool.not_eq_false'] at hc
+        rcases hc.2 with h | h
+        · rw [hlab] at h; exact absurd h (by decide)
+        · exact declareLangs_keeps _ _ _ _ ls sheet h
+      · exact declareLangs_keeps _ _ _ _ ls _ (contains_of_isPrefix_tail _ _ _ (block_has_head extra l))
+    · exact ih _ l hl hlab
 
 end PcVerif.SamiW
